@@ -279,6 +279,163 @@ def t_arg_extract(func):
     return counter[0] > 0
 
 
+def _blocks(func):
+    '''every statement list of the function (not of nested defs).'''
+    out = []
+
+    def visit(stmts):
+        out.append(stmts)
+        for stmt in stmts:
+            if isinstance(stmt, (ast.FunctionDef, ast.AsyncFunctionDef,
+                                 ast.ClassDef)):
+                continue
+            for fld in ('body', 'orelse', 'finalbody'):
+                sub = getattr(stmt, fld, None)
+                if isinstance(sub, list) and sub and isinstance(
+                        sub[0], ast.stmt):
+                    visit(sub)
+            for hdl in getattr(stmt, 'handlers', []) or []:
+                visit(hdl.body)
+    visit(func.body)
+    return out
+
+
+def _ends_flow(stmts):
+    return bool(stmts) and isinstance(stmts[-1], (ast.Return, ast.Raise,
+                                                  ast.Continue, ast.Break))
+
+
+def t_else_after_return(func):
+    '''if c: ...; return X  else: REST   ->   if c: ...; return X   REST'''
+    done = False
+    for block in _blocks(func):
+        idx = 0
+        while idx < len(block):
+            stmt = block[idx]
+            if isinstance(stmt, ast.If) and stmt.orelse and _ends_flow(
+                    stmt.body) and not (len(stmt.orelse) == 1 and isinstance(
+                        stmt.orelse[0], ast.If)):
+                rest = stmt.orelse
+                stmt.orelse = []
+                block[idx + 1:idx + 1] = rest
+                done = True
+            idx += 1
+    return done
+
+
+def t_return_into_else(func):
+    '''if c: ...; return X   REST   ->   if c: ...; return X  else: REST
+    (REST = the following statements of the same block)'''
+    done = False
+    for block in _blocks(func):
+        for idx, stmt in enumerate(block):
+            if isinstance(stmt, ast.If) and not stmt.orelse and _ends_flow(
+                    stmt.body) and idx + 1 < len(block):
+                stmt.orelse = block[idx + 1:]
+                del block[idx + 1:]
+                done = True
+                break
+    return done
+
+
+def t_and_to_nested_if(func):
+    '''if a and b: X  (no else)  ->  if a: if b: X'''
+    done = False
+    for node in ast.walk(func):
+        if isinstance(node, ast.If) and not node.orelse and isinstance(
+                node.test, ast.BoolOp) and isinstance(node.test.op, ast.And) \
+                and len(node.test.values) == 2:
+            first, second = node.test.values
+            inner = ast.If(test=second, body=node.body, orelse=[],
+                           lineno=node.lineno)
+            node.test = first
+            node.body = [inner]
+            done = True
+    return done
+
+
+def t_loop_to_comprehension(func):
+    '''x = []; for t in it: x.append(e)   ->   x = [e for t in it]'''
+    done = False
+    for block in _blocks(func):
+        idx = 0
+        while idx + 1 < len(block):
+            first, loop = block[idx], block[idx + 1]
+            if isinstance(first, ast.Assign) and len(first.targets) == 1 \
+                    and isinstance(first.targets[0], ast.Name) and \
+                    isinstance(first.value, ast.List) and \
+                    not first.value.elts and isinstance(loop, ast.For) and \
+                    not loop.orelse and len(loop.body) == 1 and isinstance(
+                        loop.body[0], ast.Expr) and isinstance(
+                            loop.body[0].value, ast.Call) and isinstance(
+                                loop.body[0].value.func, ast.Attribute) and \
+                    loop.body[0].value.func.attr == 'append' and isinstance(
+                        loop.body[0].value.func.value, ast.Name) and \
+                    loop.body[0].value.func.value.id == \
+                    first.targets[0].id and len(
+                        loop.body[0].value.args) == 1 and not any(
+                            isinstance(n, ast.Name) and
+                            n.id == first.targets[0].id
+                            for n in ast.walk(loop.body[0].value.args[0])) \
+                    and not any(isinstance(n, ast.Name) and
+                                n.id == first.targets[0].id
+                                for n in ast.walk(loop.iter)):
+                first.value = ast.ListComp(
+                    elt=loop.body[0].value.args[0],
+                    generators=[ast.comprehension(
+                        target=loop.target, iter=loop.iter, ifs=[],
+                        is_async=0)])
+                del block[idx + 1]
+                done = True
+            idx += 1
+    return done
+
+
+def t_comprehension_to_loop(func):
+    '''x = [e for t in it if c]   ->   x = []; for t in it: if c: append'''
+    done = False
+    bound = {n.id for n in ast.walk(func) if isinstance(n, ast.Name)}
+    for block in _blocks(func):
+        idx = 0
+        while idx < len(block):
+            stmt = block[idx]
+            if isinstance(stmt, ast.Assign) and len(stmt.targets) == 1 and \
+                    isinstance(stmt.targets[0], ast.Name) and isinstance(
+                        stmt.value, ast.ListComp) and len(
+                            stmt.value.generators) == 1 and not any(
+                                isinstance(n, ast.Name) and
+                                n.id == stmt.targets[0].id
+                                for n in ast.walk(stmt.value)):
+                gen = stmt.value.generators[0]
+                tnames = {n.id for n in ast.walk(gen.target)
+                          if isinstance(n, ast.Name)}
+                # the loop variable leaks out of a for statement: only when
+                # the name is used nowhere else in the function
+                others = [n for n in ast.walk(func) if isinstance(
+                    n, ast.Name) and n.id in tnames and not any(
+                        n is m for m in ast.walk(stmt))]
+                if others:
+                    idx += 1
+                    continue
+                name = stmt.targets[0].id
+                call = ast.Expr(value=ast.Call(
+                    func=ast.Attribute(value=ast.Name(id=name,
+                                                      ctx=ast.Load()),
+                                       attr='append', ctx=ast.Load()),
+                    args=[stmt.value.elt], keywords=[]))
+                body = [call]
+                for cond in reversed(gen.ifs):
+                    body = [ast.If(test=cond, body=body, orelse=[])]
+                loop = ast.For(target=gen.target, iter=gen.iter, body=body,
+                               orelse=[], lineno=stmt.lineno)
+                stmt.value = ast.List(elts=[], ctx=ast.Load())
+                block.insert(idx + 1, loop)
+                done = True
+                idx += 1
+            idx += 1
+    return done
+
+
 TRANSFORMS = {
     'arg-extract': t_arg_extract,
     'condition-extract': t_condition_extract,
@@ -290,6 +447,11 @@ TRANSFORMS = {
     'flip-if-else': t_flip_if_else,
     'unused-local': t_unused_local,
     'drop-docstring': t_drop_docstring,
+    'else-after-return': t_else_after_return,
+    'return-into-else': t_return_into_else,
+    'and-to-nested-if': t_and_to_nested_if,
+    'loop-to-comprehension': t_loop_to_comprehension,
+    'comprehension-to-loop': t_comprehension_to_loop,
 }
 
 
